@@ -177,6 +177,24 @@ func (w *World) ToggleRoundTrip(on, of *Node, tssOwner *Account, trusting time.D
 	return nil
 }
 
+// UpgradeTM is what a passed UpgradeClientProposal does to the Tendermint client `on` keeps for `of`: a fresh client
+// state and consensus state anchored at of's last committed height.
+func (w *World) UpgradeTM(on, of *Node, trusting time.Duration) error {
+	w.Roll(of)
+	h := of.Height()
+	hdr, err := of.SignedHeader(h, clienttypes.NewHeight(of.Revision(), uint64(h)))
+	if err != nil {
+		return err
+	}
+	cs := xibctmtypes.NewClientState(
+		of.ChainID, xibctmtypes.DefaultTrustLevel, trusting, trusting+7*24*time.Hour, 10*time.Second,
+		clienttypes.NewHeight(of.Revision(), uint64(h)), commitmenttypes.GetSDKSpecs(),
+		commitmenttypes.MerklePrefix{KeyPrefix: []byte("xibc")}, 0,
+	)
+	w.Roll(on)
+	return on.App.XIBCKeeper.ClientKeeper.UpgradeClient(on.Ctx(), of.Name, cs, hdr.ConsensusState())
+}
+
 // ClientLatest returns the latest height of the client that `on` keeps for `of`.
 func (w *World) ClientLatest(on, of *Node) clienttypes.Height {
 	cs, ok := on.App.XIBCKeeper.ClientKeeper.GetClientState(on.Ctx(), of.Name)
